@@ -353,9 +353,10 @@ def run_impl(case):
 
 
 # ------------------------------------------------------------------ Python mirrors of Model/CollectSpec.v and Model/Collect.v
-# Used (a) on every run as a cross-check of the verdicts computed in Coq and (b) as the oracle of last resort when the
+# Used (a) on every run as a cross-check of the verdicts computed in Coq, (b) as the oracle of last resort when the
 # model cannot be evaluated (a Gen item failed closed because the source left the translator's subset): the mirror of the
-# model is hand-written from the UNMUTATED behaviour, so a mutated implementation disagrees with it on a concrete input.
+# model is hand-written from the UNMUTATED behaviour, so a mutated implementation disagrees with it on a concrete input,
+# and (c) to NAME a defect that is recorded as fixed when it is observed again (flag on = the former defect).
 def py_excl_dir(n):
     return n in SPEC_DIRS or n.endswith(".egg-info")
 
@@ -410,14 +411,13 @@ def py_spec(case, o):
 
 def py_matches(q, path, pat):
     import fnmatch
-
-    def core(pt):
-        if pt.endswith("/"):
-            dp = pt.rstrip("/")
-            parts = path.split("/")
-            return dp in (parts if q["q_dirpat_filename"] else parts[:-1]) or fnmatch.fnmatch(path, dp + ("*" if q["q_dirpat_prefix"] else "/*"))
-        return fnmatch.fnmatch(path, pt)
-    return core(pat) or (not q["q_doublestar_needs_dir"] and pat.startswith("**/") and core(pat[3:]))
+    if not q["q_doublestar_needs_dir"] and pat.startswith("**/") and py_matches(q, path, pat[3:]):
+        return True
+    if pat.endswith("/"):
+        dp = pat.rstrip("/")
+        parts = path.split("/")
+        return dp in (parts if q["q_dirpat_filename"] else parts[:-1]) or fnmatch.fnmatch(path, dp + ("*" if q["q_dirpat_prefix"] else "/*"))
+    return fnmatch.fnmatch(path, pat)
 
 
 def py_model(case, o, q):
@@ -447,8 +447,8 @@ def py_model(case, o, q):
 
 def py_verdict(case, o, r):
     """the bits the Coq judge returns, computed by the mirrors: [impl=spec, ideal=spec, in_domain, impl=cand...]"""
-    on = {f: True for f in FLAGS}
-    cands = [on] + [{**on, f: False} for f in FLAGS] + [{f: False for f in FLAGS}]
+    off = {f: False for f in FLAGS}
+    cands = [off] + [{**off, f: True} for f in FLAGS] + [off]
     sp = py_spec(case, o)
     return [r == sp, py_model(case, o, cands[-1]) == sp, True] + [r == py_model(case, o, c) for c in cands]
 
@@ -607,8 +607,13 @@ def load_known(chk):
     p = VERIF / "known.d" / f"{PROP}.json"
     if p.exists():
         for f in json.loads(p.read_text()).get("findings", []):
-            if f.get("property") == PROP and f.get("status") == "known":
+            if f.get("property") != PROP:
+                continue
+            if f.get("status") == "known":
                 chk.known["known"].setdefault(f["key"], f)
+            elif str(f.get("status", "")).startswith("fixed"):
+                chk.known["known"].pop(f["key"], None)
+                chk.known["fixed"].setdefault(f["key"], f)
 
 
 def corpus_cases():
@@ -654,7 +659,7 @@ def run(tier: str, seed: int, replay: str | None = None) -> int:
             "src/linter_config/pattern_utils.py::", "src/cli/utils.py::separate_files_and_dirs", "src/orchestrator/core.py::lint_directory_parallel")
     chk.fingerprint_changed = [k for k in chk.fingerprint_changed if k.startswith(mine)]
     scale = chk.budget_scale()
-    per_batch = 180 if tier == "quick" else 1800
+    per_batch = 150 if tier == "quick" else 1800
     max_depth = 4 if tier == "quick" else 6
     code_dirs, code_exts = code_tables()
     state = {"cands_all": None, "t_impl": 0.0, "t_coq": 0.0}
@@ -695,7 +700,7 @@ def run(tier: str, seed: int, replay: str | None = None) -> int:
     if cands_all is not None and not cands_all[0]:
         alt = [i for i, ok in enumerate(cands_all) if ok]
         if alt:
-            names = ["actual"] + [f"actual without {f}" for f in FLAGS] + ["ideal"]
+            names = ["actual"] + [f"actual with the former defect {f}" for f in FLAGS] + ["ideal"]
             chk.notes.append("implementation no longer matches the claimed quirk vector but matches: " + names[alt[0]] +
                              " (a listed defect is no longer observed; theorems hold for every vector)")
         else:
@@ -744,21 +749,16 @@ def decide(chk, cases, impls, verdicts, state):
             state["cands_all"] = cand if state["cands_all"] is None else [a and b for a, b in zip(state["cands_all"], cand)]
             if spec_ok:
                 continue
-            info = {"observation": o, "impl": r, "case": case,
+            info = {"observation": o, "impl": r, "case": case, "model_actual_matches_impl": cand[0], "model_ideal_matches_spec": ideal_ok,
                     "reason": "the set of files that produced a violation differs from: files beneath the target minus always-excluded directories, compiled artefacts and ignore-pattern matches"}
-            relevant = [FLAGS[i] for i in range(len(FLAGS)) if not cand[1 + i]]
-            if cand[0] and ideal_ok and not relevant:
-                relevant = list(FLAGS)   # several listed defects compensate one another: only switching all of them off changes the output
-            on = {f: True for f in FLAGS}
-            if cand[0] and ideal_ok and py_model(case, o, on) != r:
-                # the faithful Coq model follows Gen, so a change inside a generated function is absorbed by it; the hand-written
-                # mirror records what the listed findings looked like: a failure that is not identical to it is a new one
-                info["reason"] += " (and the failure is not the recorded behaviour of the listed findings: a generated function changed)"
-                chk.violation(info)
-            elif cand[0] and ideal_ok:
-                for k in relevant:
-                    chk.known_finding(k, {"observation": o, "impl": r, "case": case})
+            # no finding of this property is still listed as known (Actual/CollectActual.v has every flag off): every failure is a
+            # violation.  If the failure is exactly a former defect (mirror with that one flag on) it is named, which makes the
+            # framework report "recorded as fixed but observed again".
+            off = {f: False for f in FLAGS}
+            named = [f for f in FLAGS if py_model(case, o, {**off, f: True}) == r]
+            still_known = [f for f in named if f in chk.known["known"]]
+            if named and (still_known or all(f in chk.known["fixed"] for f in named)):
+                for f in named:
+                    chk.known_finding(f, {k: v for k, v in info.items() if k != "reason"})
             else:
-                info["model_actual_matches_impl"] = cand[0]
-                info["model_ideal_matches_spec"] = ideal_ok
                 chk.violation(info)
